@@ -80,3 +80,11 @@ AMEND.update({
         technique="Kani/CBMC exact-average oracle at reduced gradient width and fixed durations + MIR->SMT-LIB2 (z3, cvc5 cross-check) of the same functions at full width per number of full weeks",
         engine="kani+mir2smt"),
 })
+
+AMEND.update({
+    "C30": dict(
+        text_append="Kani complement: the real GtState::unchecked_update_rank is executed on every GT state image with a strictly increasing table of max_rank <= 4 thresholds and every user image: the stored rank becomes the number of thresholds at or below the balance and the balance is untouched (independent of how the function is written; added after a seeded rewrite the translator could not model).",
+        note_append="Kani part trusted base: kani-compiler + CBMC; max_rank is located in the image through the real ranks() accessor (field directly in front of the table).",
+        technique="MIR->SMT-LIB2 (z3, cvc5 cross-check best effort) for the mint arithmetic and rank rule + Kani/CBMC execution of the real rank update",
+        engine="mir2smt+kani"),
+})
